@@ -331,9 +331,43 @@ Print Assumptions C10_kind_sound.
 
 (** what [kind_justified] says, kind by kind *)
 Theorem C10_missing_justified : forall c T e, kind_justified c T e -> e_kind e = EMissingRequiredArgument ->
-  exists m req, faithful c T m /\ gather_requires c m (required_graph c) = Some req /\ missing_cause c m req (e_arg e).
+  exists m, faithful c T m /\ check_explicit m (e_arg e) PIsPresent = false /\
+    (rule_requires c m (e_arg e)
+     \/ (exists a, In a (c_args c) /\ a_id a = e_arg e /\ ErrorSound.cond_required m a)
+     \/ (exists p, In p (positionals c) /\ a_id p = e_arg e /\ is_set s_allow_missing_pos c = false)).
 Proof. exact justified_missing. Qed.
 Print Assumptions C10_missing_justified.
+
+(** "a rule asks for x", declaratively: a required argument / group, what a required or present group requires, or
+    the [requires] rules (closed transitively) that hold of the explicit occurrence of a present argument *)
+Theorem C10_rule_requires_spec : forall c mt x, rule_requires c mt x <->
+  (exists a, In a (c_args c) /\ a_required a = true /\ a_id a = x)
+  \/ (exists g, In g (c_groups c) /\ g_required g = true /\ (g_id g = x \/ In x (g_requires g)))
+  \/ (exists i ma g, In (i, ma) (explicit_entries mt) /\ find_arg c i = None /\ find_group c i = Some g /\ In x (g_requires g))
+  \/ (exists i ma, In (i, ma) (explicit_entries mt) /\ req_by c ma i x).
+Proof. exact rule_requires_spec. Qed.
+Print Assumptions C10_rule_requires_spec.
+
+Theorem C10_req_by_spec : forall c m root y, req_by c m root y <->
+  (exists a p, find_arg c root = Some a /\ In (p, y) (a_requires a) /\ Relations.holds p m)
+  \/ (exists x b p, req_by c m root x /\ find_arg c x = Some b /\ In (p, y) (a_requires b) /\ Relations.holds p m).
+Proof. exact req_by_spec. Qed.
+Print Assumptions C10_req_by_spec.
+
+(** the requirement set the validator computes contains only ids a rule asks for (converse of C03's direction) *)
+Theorem C10_requirement_set_sound : forall c mt req x,
+  gather_requires c mt (required_graph c) = Some req -> In x req -> rule_requires c mt x.
+Proof. exact requirement_set_sound. Qed.
+Print Assumptions C10_requirement_set_sound.
+
+Theorem C10_missing_rule_sound : forall c mt x,
+  validate c mt = VErr EMissingRequiredArgument x ->
+  check_explicit mt x PIsPresent = false /\
+  (rule_requires c mt x
+   \/ (exists a, In a (c_args c) /\ a_id a = x /\ ErrorSound.cond_required mt a)
+   \/ (exists p, In p (positionals c) /\ a_id p = x /\ is_set s_allow_missing_pos c = false)).
+Proof. exact missing_rule_sound. Qed.
+Print Assumptions C10_missing_rule_sound.
 
 Theorem C10_conflict_justified : forall c T e, kind_justified c T e -> e_kind e = EArgumentConflict ->
   (accounted c T (e_arg e) /\ is_some (find_arg c (e_arg e)) = true /\
@@ -405,3 +439,11 @@ Theorem C10_kind_sound_nonvacuous :
         Some EDisplayHelp; Some EInvalidValue].
 Proof. exact kind_sound_nonvacuous. Qed.
 Print Assumptions C10_kind_sound_nonvacuous.
+
+(** no spurious rejection in contrapositive form (with C01's totality): a line for which no error is justified at
+    any level of the chain is accepted *)
+Theorem C10_unbroken_accepted : forall c0 argv, plain c0 = true ->
+  (forall b, valid (c0 <| c_bin_name := b |>) = true) -> valid c0 = true ->
+  (forall e, ~ Breaks c0 argv e) -> exists m, parse_top c0 argv = OOk m.
+Proof. exact unbroken_accepted. Qed.
+Print Assumptions C10_unbroken_accepted.
